@@ -40,6 +40,7 @@ type muxScenario struct {
 	Fault  *muxFault `json:"fault,omitempty"`
 	Demux  bool      `json:"demux,omitempty"`
 	Reuse  bool      `json:"reuse,omitempty"` // the caller keeps one PacketAdaptationField object per class and passes it to every WriteData
+	Shadow bool      `json:"shadow,omitempty"` // a second, unrelated Muxer lives in the same process and is used between the calls
 }
 
 // ---------- recording / fault-injecting writer ----------
@@ -185,8 +186,41 @@ func runMuxOn(sc *muxScenario, rec *recorder, w *recWriter) {
 		}
 		return p
 	}
+	// the unrelated Muxer: other streams, other stream types, its own writer and random source; nothing it does may show in m's output
+	var shadow *astits.Muxer
+	var shadowPIDs []uint16
+	rs := newRng(sc.Seed ^ 0x5badc0de)
+	if sc.Shadow {
+		shadow = astits.NewMuxer(context.Background(), &recWriter{}, astits.MuxerOptTablesRetransmitPeriod(1+rs.intn(3)))
+	}
+	shadowStep := func(op string) {
+		if shadow == nil {
+			return
+		}
+		safeCall(func() {
+			switch {
+			case op == "add" || len(shadowPIDs) == 0:
+				es := astits.PMTElementaryStream{ElementaryPID: uint16(rs.pick(0, 0, 0x300+rs.intn(8))), StreamType: astits.StreamType(rs.pick(0x02, 0x03, 0x06, 0x81, 0x24)),
+					ElementaryStreamDescriptors: []*astits.Descriptor{{Tag: 0x90, Length: 3, UserDefined: rs.bytes(3)}}}
+				if shadow.AddElementaryStream(es) == nil {
+					st := astits.VerifMuxerState(shadow)
+					shadowPIDs = append(shadowPIDs, st.StreamPIDs[len(st.StreamPIDs)-1])
+					shadow.SetPCRPID(shadowPIDs[0])
+				}
+			case op == "remove" && len(shadowPIDs) > 1:
+				shadow.RemoveElementaryStream(shadowPIDs[len(shadowPIDs)-1])
+				shadowPIDs = shadowPIDs[:len(shadowPIDs)-1]
+			case op == "tables":
+				shadow.WriteTables()
+			default:
+				shadow.WriteData(&astits.MuxerData{PID: shadowPIDs[rs.intn(len(shadowPIDs))], AdaptationField: buildAF(rs.pickS("none", "rai", "pcr"), rs),
+					PES: &astits.PESData{Header: buildPESHeader("pts", 0, rs), Data: rs.bytes(rs.pick(1, 100, 400))}})
+			}
+		})
+	}
 	for oi := range sc.Ops {
 		op := &sc.Ops[oi]
+		shadowStep(op.Op)
 		before := w.buf.Len()
 		wcBefore := w.wcalls
 		firedBefore := w.fired
